@@ -1105,13 +1105,15 @@ def check_C03(tier, seed):
     for d in sprobs:
         if d['why'][0] in ('meaning', 'rejected-documented'):
             out.violations.append({'summary': {'pattern': pat_text(d['pat']), 'class': 'syntax layer: ' + d['why'][0], 'library_accepts': d['valid']}, 'kind': 'rx', 'pattern': d['pat']})
+    exstats, st3, tr3 = rxexpr_language_section(out, tier, rng)
+    st2 += st3; tr2 += tr3
     out.violations = out.violations[:12]
     if k1_cases:
         ex = '; '.join('%r rejects/accepts %r wrongly' % (p, bytes(c['string']).decode('latin-1')) for p, c in k1_cases[:4])
         out.known.append('K1 in-place DFA merging (no subset construction): %d of %d patterns fail exactly as the modelled design fails, e.g. %s' % (len(k1_cases), len(items), ex))
     out.coverage = {'states': int(st + st2), 'transitions': int(max(tr + tr2, 1)), 'traces_validated_against_impl': len(items),
                     'patterns': len(jobs), 'patterns_built': len(items), 'patterns_language_equal': len(items) - len(set(ref) | set(model)),
-                    'patterns_failing_as_modelled_design_K1': len(k1_cases), 'patterns_deviating_from_model': len(out.violations),
+                    'patterns_failing_as_modelled_design_K1': len(k1_cases), 'patterns_deviating_from_model': len(out.violations), 'regex_expr_standalone_matcher': exstats,
                     'witnesses_executed_on_real_matcher': sum(len(v) for v in confirmed.values()),
                     'syntax_classes(documented/unspecified/reject x library accepts)': {'%s,%s' % k: v for k, v in classes.items()},
                     'tlc_runs': runs, 'bounds': {'ast_sizes_exhaustive': 3 if tier == 'quick' else 4, 'alphabet': 'full 256 bytes through per-pattern segments'},
@@ -1121,6 +1123,98 @@ def check_C03(tier, seed):
                        'each recorded builder call sequence is replayed on the TLA+ transcription of dfa_builder (trace validation of the builder)',
                        'K1 attribution: a failing pattern is a known finding only if real automaton and modelled automaton agree on every string']
     return out
+
+
+def rxexpr_language_section(out, tier, rng):
+    """C03 for the standalone matcher itself: regex::expr<P> objects (automata built in constant evaluation) - their dumped
+    automaton against the modelled builder and the pattern's language (RxCheck product), and the verdict of every match
+    overload on given strings against TLC's walk (RxCheck!GivenSpec); the same verdicts as static_asserts."""
+    import rx as rxl, re as _re
+    src = open(os.path.join(vlib.HARNESS, 'rxexpr.cpp')).read()
+    pats = {}
+    for m in _re.finditer(r'constexpr char p(\d+)\[\] = "((?:[^"\\]|\\.)*)";', src):
+        pats[int(m.group(1))] = bytes(m.group(2), 'latin-1').decode('unicode_escape')
+    mrecs, mcrash = run_rxexpr(rng, tier)
+    if mcrash:
+        out.violations.append({'summary': {'class': 'regex::expr::match crashed the process', 'detail': mcrash}, 'kind': 'rxexpr', 'pattern': '', 'string': []})
+    dumps = {r['dump']: r['dfa'] for r in mrecs if 'dump' in r}
+    bypat = collections.defaultdict(list)
+    for r in mrecs:
+        if 'pattern' in r:
+            bypat[r['pattern']].append(r)
+    jobs = [('e%d' % i, list(p.encode('latin-1')), []) for i, p in sorted(pats.items()) if p in dumps]
+    recs, crashed, _ = rxl.run_rx(jobs, 'C03ex')
+    items, strs_of = [], {}
+    for j, r in zip(jobs, recs):
+        if r is None or not r['built']:
+            continue
+        ptxt = pat_text(j[1])
+        r2 = dict(r); r2['dfa'] = dumps[ptxt]                   # the automaton of the compile-time object, not the run-time build
+        it = rxl.to_item(r2)
+        strs = sorted({tuple(m['s']) for m in bypat[ptxt]})
+        segof = lambda b: [k + 1 for k, (lo, hi) in enumerate(it['segs']) if lo <= b <= hi][0]
+        it['giv'] = [[segof(b) for b in s_] for s_ in strs]
+        strs_of[it['id']] = (ptxt, strs)
+        items.append(it)
+    work = vlib.scratch('C03exg')
+    ip = os.path.join(work, 'items.ndjson')
+    vlib.write_ndjson(ip, items)
+    cfg1 = pipeline.write_cfg(work, 'prod', 'Spec', ['RefReported', 'ModelReported', 'StaticReported'], view='vw')
+    cfg2 = pipeline.write_cfg(work, 'given', 'GivenSpec', ['GivenReported'])
+    r1, r2 = vlib.run_parallel([lambda: vlib.run_tlc('RxCheck', cfg1, {'VERIF_RX': ip}, 'C03ex_prod', workers=2, timeout=900),
+                                lambda: vlib.run_tlc('RxCheck', cfg2, {'VERIF_RX': ip}, 'C03ex_given', workers=2, timeout=900)])
+    for r in (r1, r2):
+        if r.exit != 0 or r.errors:
+            raise Infra('RxCheck (regex::expr section) failed: %s\n%s' % (r.errors[:3], r.out[-2000:]))
+    deviates = {d['id'] for d in r1.lines.get('RXMODEL', [])} | {d['id'] for d in r1.lines.get('RXSTATIC', []) if d['why'][0] in ('state', 'size-used', 'returned-slice')}
+    for pid in sorted(deviates):
+        out.violations.append({'summary': {'pattern': strs_of[pid][0], 'class': 'the automaton of the compile-time regex::expr object deviates from the modelled builder'}, 'kind': 'rxexpr', 'pattern': strs_of[pid][0], 'string': []})
+    expected, k1 = {}, 0
+    for d in r2.lines.get('RXGIVEN', []):
+        ptxt, strs = strs_of[d['id']]
+        s_ = strs[d['k'] - 1]
+        expected[(ptxt, s_)] = d
+        if d['real'] != d['ref']:
+            if d['model'] == d['real'] and known_match('C03', 'rx-design'):
+                k1 += 1
+            else:
+                out.violations.append({'summary': {'pattern': ptxt, 'string': list(s_)[:40], 'class': 'regex::expr: language differs from the pattern', 'automaton_accepts': d['real'], 'pattern_language_contains': d['ref']},
+                                       'kind': 'rxexpr', 'pattern': ptxt, 'string': list(s_)})
+    nm = 0
+    for r in mrecs:
+        if 'pattern' not in r:
+            continue
+        d = expected.get((r['pattern'], tuple(r['s'])))
+        if d is None:
+            continue
+        nm += 1
+        if r['match'] != d['real'] and not r.get('threw'):
+            out.violations.append({'summary': {'pattern': r['pattern'], 'string': r['s'][:40], 'overload/buffer': ['match(buffer, stream) checked', 'match(buffer, stream) string_buffer', 'match(buffer) string_view_buffer', 'match(options, buffer, stream) verbose'][r['buf']],
+                                               'class': 'regex::expr::match verdict differs from what its own automaton accepts', 'match_returned': r['match'], 'automaton_accepts': d['real']},
+                                   'kind': 'rxexpr', 'pattern': r['pattern'], 'string': r['s']})
+    # the same verdicts in constant evaluation: match(string literal)
+    ct = ['#include <ctpg/ctpg.hpp>', 'using namespace ctpg;']
+    nct = 0
+    for i, p in sorted(pats.items()):
+        ct.append('constexpr char q%d[] = "%s";' % (i, ''.join('\\%03o' % b for b in p.encode('latin-1'))))
+        ct.append('constexpr regex::expr<q%d> x%d;' % (i, i))
+    for (ptxt, s_), d in sorted(expected.items()):
+        if d['real'] != d['ref'] or len(s_) > 40:
+            continue
+        i = [k for k, p in pats.items() if p == ptxt][0]
+        ct.append('static_assert(x%d.match("%s") == %s, "RXCT %d");' % (i, ''.join('\\%03o' % b for b in s_), 'true' if d['ref'] else 'false', nct))
+        nct += 1
+    ct.append('int main() { return 0; }')
+    cp = os.path.join(work, 'rxexpr_ct.cpp')
+    open(cp, 'w').write('\n'.join(ct) + '\n')
+    inc = os.path.join(vlib.REPO, 'include')
+    crs = vlib.run_parallel([lambda: subprocess.run(['g++', '-std=c++17', '-fsyntax-only', '-fconstexpr-ops-limit=1000000000', '-I' + inc, cp], capture_output=True, text=True, timeout=1200),
+                             lambda: subprocess.run(['clang++', '-std=c++17', '-fsyntax-only', '-fconstexpr-steps=1000000000', '-I' + inc, cp], capture_output=True, text=True, timeout=1200)])
+    for comp, cr in zip(('g++', 'clang++'), crs):
+        if cr.returncode != 0:
+            out.violations.append({'summary': {'class': 'regex::expr::match(string literal) in constant evaluation fails or differs from the pattern language (%s)' % comp, 'compiler_says': cr.stderr[:600]},
+                                   'kind': 'rxexpr', 'pattern': '', 'string': []})
+    return {'regex_expr_objects': len(items), 'match_calls_compared': nm, 'static_asserts_per_compiler': nct, 'k1_attributed_strings': k1}, r1.distinct + r2.distinct, r1.generated + r2.generated
 
 
 def grammar_wf_check(tier, work):
